@@ -54,7 +54,7 @@ def _mirror(chk):
   last = r.error_trace[-1]['state']
   sig, act = last['sig'], last['act']
   gen = cr.generated(sig)
-  pos, kws = cr.call_args(act[1], act[2], 300, 400)
+  pos, kws = cr.valued_args(act[1], act[2])
   direct = cr.outcome(lambda: gen.fn(*pos, **kws))
   late = cr.outcome(lambda: gen.functor()(*pos, **kws))
   chk.notes['mirror_counterexample'] = {'function': gen.src.splitlines()[0], 'call': [pos, kws],
@@ -82,50 +82,60 @@ def _table(chk, thorough):
         _report(chk, {'mode': 'signature', 'binding': binding},
                       {'function': gen.src.splitlines()[0], 'expected': want, 'observed': got})
     for j, c in enumerate(calls):
-      err, exp = cr.expected_of(res[i][j])
-      cr.check_direct(gen, c['nargs'], c['kw'], err, exp)      # MachineryFailure if BindV != interpreter
-      n_direct += 1
-      kinds[err] = kinds.get(err, 0) + 1
-      if thorough:
-        bindings = cr.BINDINGS
-      else:        # quick: the two functor paths on every pair, the four others in rotation
-        bindings = ('functor', 'functor-late', cr.BINDINGS[2 + (i + j) % 4])
-      for b in bindings:
-        kind, val, rep = cr.run_binding(gen, b, c['nargs'], c['kw'])
-        chk.evaluations += 1
-        chk.count('table:' + b)
-        clause = None
-        if err == 'ok':
-          if kind != 'ok':
-            clause, observed = 'result', kind
-          elif cr.plain(val) != exp:
-            clause, observed = 'result', 'different-value'
-          elif rep is not None and rep != exp:
-            clause, observed = 'sym_init_args', 'different-value'
-        elif kind != 'TypeError':
-          clause, observed = 'error-kind', kind
-        if clause is None and err == 'ok' and (thorough or (i + 3 * j) % 5 == 0):
-          for how, (ckind, cval) in cr.run_copies(gen, b, c['nargs'], c['kw']).items():
-            chk.count('copies:' + how)
-            if ckind != 'ok' or cr.plain(cval) != exp:
-              _report(chk, {'mode': 'table', 'binding': b, 'clause': how, 'expected': 'ok',
-                            'observed': ckind if ckind != 'ok' else 'different-value'},
-                      {'function': gen.src.splitlines()[0], 'call': cr.call_args(c['nargs'], c['kw'], 300, 400),
-                       'expected': exp, 'observed': cval})
-        if clause:
-          _report(chk, {'mode': 'table', 'binding': b, 'clause': clause, 'expected': err, 'observed': observed},
-                        {'function': gen.src.splitlines()[0], 'call': cr.call_args(c['nargs'], c['kw'], 300, 400),
-                          'expected': exp if err == 'ok' else f'TypeError ({err})', 'observed_kind': kind,
-                         'observed': val, 'sym_init_args': rep})
+      # value modes: "dist" = a keyword carries its own value (400+n), "eqv" = the value the positional route
+      # would carry (300+n), so that a duplicated argument has EQUAL values on both routes
+      modes = ('dist', 'eqv') if thorough else (('eqv',) if (i + j) % 2 else ('dist',))
+      for mode in modes:
+        cell = res[i][j][mode]
+        kbase = 400 if mode == 'dist' else 300
+        err, exp = cr.expected_of(cell)
+        perr, pexp = cr.expected_partial(cell)
+        cr.check_direct(gen, c['nargs'], c['kw'], err, exp, kbase)      # MachineryFailure if BindV != interpreter
+        n_direct += 1
+        kinds[err] = kinds.get(err, 0) + 1
+        if thorough:
+          bindings = cr.BINDINGS
+        else:        # quick: the two functor paths on every pair, the six others in rotation
+          bindings = ('functor', 'functor-late', cr.BINDINGS[2 + (i + j // 2) % 6])
+        for b in bindings:
+          kind, val, rep = cr.run_binding(gen, b, c['nargs'], c['kw'], kbase)
+          chk.evaluations += 1
+          chk.count('table:' + b)
+          chk.count('table-mode:' + mode)
+          want_err, want = (perr, pexp) if b.endswith('-partial') else (err, exp)
+          clause = None
+          if want_err == 'ok':
+            if kind != 'ok':
+              clause, observed = 'result', kind
+            elif cr.plain(val) != want:
+              clause, observed = 'result', 'different-value'
+            elif rep is not None and rep != want:
+              clause, observed = 'sym_init_args', 'different-value'
+          elif kind != 'TypeError':
+            clause, observed = 'error-kind', kind
+          if clause is None and err == 'ok' and not b.endswith('-partial') and (thorough or (i + 3 * j) % 5 == 0):
+            for how, (ckind, cval) in cr.run_copies(gen, b, c['nargs'], c['kw'], kbase).items():
+              chk.count('copies:' + how)
+              if ckind != 'ok' or cr.plain(cval) != exp:
+                _report(chk, {'mode': 'table', 'binding': b, 'clause': how, 'expected': 'ok',
+                              'observed': ckind if ckind != 'ok' else 'different-value'},
+                        {'function': gen.src.splitlines()[0], 'call': cr.call_args(c['nargs'], c['kw'], 300, kbase),
+                         'expected': exp, 'observed': cval})
+          if clause:
+            _report(chk, {'mode': 'table', 'binding': b, 'clause': clause, 'expected': want_err, 'observed': observed},
+                    {'function': gen.src.splitlines()[0], 'call': cr.call_args(c['nargs'], c['kw'], 300, kbase),
+                     'values': mode,
+                     'expected': want if want_err == 'ok' else f'TypeError ({want_err})', 'observed_kind': kind,
+                     'observed': val, 'sym_init_args': rep})
       if (i * 7 + j) % 9973 == 0:
         chk.sample({'function': gen.src.splitlines()[0], 'call': cr.call_args(c['nargs'], c['kw'], 300, 400),
-                    'spec_outcome': err, 'spec_result': exp})
+                    'spec_outcome': res[i][j]['dist']['err'], 'spec_result': cr.expected_of(res[i][j]['dist'])[1]})
     chk.distinct_case(('sig', cr.sig_key(sig)))
   chk.notes['table'] = {'signatures': len(sigs), 'calls': len(calls), 'direct_calls_agreeing_with_BindV': n_direct,
                         'outcome_kinds': kinds, 'generated_signatures_checked': sig_checked}
   for k in ('ok', 'toomany', 'multiple', 'unexpected', 'missing'):
     chk.require(kinds.get(k, 0) > 0, f'vacuous: no table entry with outcome {k}')
-  for k in ('copies:clone', 'copies:json') + tuple('table:' + b for b in cr.BINDINGS):
+  for k in ('copies:clone', 'copies:json', 'table-mode:dist', 'table-mode:eqv') + tuple('table:' + b for b in cr.BINDINGS):
     chk.require(chk.counters.get(k, 0) > 0, f'vacuous: {k} never exercised')
 
 
@@ -165,7 +175,10 @@ def _lifecycle(chk, thorough):
                      'history': acts[:d.step], 'expected': d.expected, 'observed': d.observed})
   chk.notes['lifecycle_hits'] = dict(sorted(hits.items()))
   for need in ('Construct:ok', 'SetAttr', 'DelAttr', 'Rebind', 'Clone', 'JsonRT', 'Call:ok', 'Call:rebound',
-               'Call:multiple', 'Call:toomany', 'Call:unexpected', 'Call:missing'):
+               'Call:multiple', 'Call:toomany', 'Call:unexpected', 'Call:missing',
+               'Construct-mode:distinct', 'Construct-mode:equal', 'Construct-mode:boxed',
+               'Call-mode:distinct', 'Call-mode:equal', 'Call-mode:asbound',
+               'Rebind-entries:2', 'Rebind-entries:3', 'Rebind:nested-before-top'):
     chk.require(hits.get(need, 0) > 0, f'vacuous: no replayed step {need}')
 
 
